@@ -1,56 +1,91 @@
 (* C10 — par.Cache computes each key once and publishes the result safely.
    This file contains only the property theorems, each closed by [exact] of a lemma proved in
-   Par/ParCacheProofs.v, with Print Assumptions beneath it.  [creachable fval progs s]: s is
-   reached from the empty cache by some interleaving of the threads running [progs] (lists of
-   Do(k)/Get(k) calls), one synchronisation operation per step; [fval k] is what f_k returns. *)
+   Par/ParCacheBase.v / Par/ParCacheProofs.v / Par/ParExamples.v, with Print Assumptions beneath it.
+   [creachable fval deps progs s]: s is reached from the empty cache by some interleaving of the
+   threads running [progs] (lists of Do(k)/Get(k) calls), one synchronisation operation or plain
+   access per step; f_k calls Do on the keys [deps k] (nested Do) and returns [fval k] (None = nil). *)
 From Coq Require Import List Arith.
-From GI Require Import Gen.ParConsts Par.ParWork Par.ParCache Par.ParCacheProofs.
+From GI Require Import Gen.ParConsts Par.ParWork Par.ParCache Par.ParCacheBase Par.ParCacheProofs Par.ParExamples.
 Import ListNotations.
 
 Theorem C10_done_flag_constants : Nat.eqb 0 cache_done_test = true /\ Nat.eqb cache_done_value cache_done_test = false.
 Proof. exact (conj done_zero_is_not_done done_value_is_done). Qed.
 Print Assumptions C10_done_flag_constants.
 
-Theorem C10_f_once_per_key : forall (fval : nat -> nat) (progs : list (list call)) (s : cstate) (k : nat),
-  creachable fval progs s -> fbegins (ents s k) <= 1 /\ fends (ents s k) <= fbegins (ents s k).
+Theorem C10_f_once_per_key : forall (fval : nat -> option nat) (deps : nat -> list nat) (progs : list (list call))
+    (s : cstate) (k : nat),
+  creachable fval deps progs s -> fbegins (ents s k) <= 1 /\ fends (ents s k) <= fbegins (ents s k).
 Proof. exact f_once_per_key. Qed.
 Print Assumptions C10_f_once_per_key.
 
-Theorem C10_f_exactly_once_at_end : forall (fval : nat -> nat) (progs : list (list call)) (s : cstate),
-  creachable fval progs s -> all_idle s = true ->
+Theorem C10_f_exactly_once_at_end : forall (fval : nat -> option nat) (deps : nat -> list nat)
+    (progs : list (list call)) (s : cstate),
+  creachable fval deps progs s -> all_idle s = true ->
   forall (p : list call) (k : nat), In p progs -> In (CDo k) p ->
-  fbegins (ents s k) = 1 /\ fends (ents s k) = 1 /\ result (ents s k) = Some (fval k).
+  fbegins (ents s k) = 1 /\ fends (ents s k) = 1 /\ result (ents s k) = fval k.
 Proof. exact f_exactly_once_at_end. Qed.
 Print Assumptions C10_f_exactly_once_at_end.
 
-Theorem C10_do_returns_f_value : forall (fval : nat -> nat) (progs : list (list call)) (s : cstate)
-    (t : nat) (th : thr) (k : nat) (v : option nat),
-  creachable fval progs s -> nth_error (thrs s) t = Some th -> In (CDo k, v) (rets th) ->
-  v = Some (fval k) /\ fbegins (ents s k) = 1 /\ fends (ents s k) = 1 /\ result (ents s k) = Some (fval k).
+Theorem C10_do_returns_f_value : forall (fval : nat -> option nat) (deps : nat -> list nat) (progs : list (list call))
+    (s : cstate) (t : nat) (th : thr) (k : nat) (v : option nat),
+  creachable fval deps progs s -> nth_error (thrs s) t = Some th -> In (CDo k, v) (rets th) ->
+  v = fval k /\ fbegins (ents s k) = 1 /\ fends (ents s k) = 1 /\ result (ents s k) = fval k.
 Proof. exact do_returns_f_value. Qed.
 Print Assumptions C10_do_returns_f_value.
 
-Theorem C10_do_after_f : forall (fval : nat -> nat) (progs : list (list call)) (s : cstate)
-    (t : nat) (th : thr) (k : nat),
-  creachable fval progs s -> nth_error (thrs s) t = Some th -> tpc th = DRead k ->
-  fends (ents s k) = 1 /\ result (ents s k) = Some (fval k) /\ C (is_inf k) (thrs s) = 0.
+Theorem C10_nested_do_returns_f_value : forall (fval : nat -> option nat) (deps : nat -> list nat)
+    (progs : list (list call)) (s : cstate) (t : nat) (th : thr) (k : nat) (v : option nat),
+  creachable fval deps progs s -> nth_error (thrs s) t = Some th -> In (k, v) (nrets th) ->
+  v = fval k /\ fbegins (ents s k) = 1 /\ fends (ents s k) = 1 /\ result (ents s k) = fval k.
+Proof. exact nested_do_returns_f_value. Qed.
+Print Assumptions C10_nested_do_returns_f_value.
+
+Theorem C10_done_implies_deps_done : forall (fval : nat -> option nat) (deps : nat -> list nat)
+    (progs : list (list call)) (s : cstate) (k d : nat),
+  creachable fval deps progs s -> isd (ents s k) = true -> In d (deps k) ->
+  isd (ents s d) = true /\ fends (ents s d) = 1 /\ result (ents s d) = fval d.
+Proof. exact done_implies_deps_done. Qed.
+Print Assumptions C10_done_implies_deps_done.
+
+Theorem C10_do_after_f : forall (fval : nat -> option nat) (deps : nat -> list nat) (progs : list (list call))
+    (s : cstate) (t : nat) (th : thr) (k : nat),
+  creachable fval deps progs s -> nth_error (thrs s) t = Some th -> tpc th = DRead k ->
+  fends (ents s k) = 1 /\ result (ents s k) = fval k /\ C (is_inf k) (thrs s) = 0.
 Proof. exact do_after_f. Qed.
 Print Assumptions C10_do_after_f.
 
-Theorem C10_get_nonblocking : forall (fval : nat -> nat) (s : cstate) (t : nat) (th : thr),
-  nth_error (thrs s) t = Some th -> in_get (tpc th) = true -> exists s' : cstate, cstep fval s t = Some s'.
+Theorem C10_get_nonblocking : forall (fval : nat -> option nat) (deps : nat -> list nat) (s : cstate) (t : nat) (th : thr),
+  nth_error (thrs s) t = Some th -> in_get (tpc th) = true -> exists s' : cstate, cstep fval deps s t = Some s'.
 Proof. exact get_nonblocking. Qed.
 Print Assumptions C10_get_nonblocking.
 
-Theorem C10_get_nil_or_value : forall (fval : nat -> nat) (progs : list (list call)) (s : cstate)
-    (t : nat) (th : thr) (k : nat) (v : option nat),
-  creachable fval progs s -> nth_error (thrs s) t = Some th -> In (CGet k, v) (rets th) ->
-  v = None \/ v = Some (fval k) /\ fends (ents s k) = 1.
+Theorem C10_get_nil_or_value : forall (fval : nat -> option nat) (deps : nat -> list nat) (progs : list (list call))
+    (s : cstate) (t : nat) (th : thr) (k : nat) (v : option nat),
+  creachable fval deps progs s -> nth_error (thrs s) t = Some th -> In (CGet k, v) (rets th) ->
+  v = None \/ v = fval k /\ fends (ents s k) = 1.
 Proof. exact get_nil_or_value. Qed.
 Print Assumptions C10_get_nil_or_value.
 
-Theorem C10_race_free : forall (fval : nat -> nat) (progs : list (list call)) (s : cstate),
-  creachable fval progs s ->
+Theorem C10_get_after_done : forall (fval : nat -> option nat) (deps : nat -> list nat) (progs : list (list call))
+    (s : cstate) (t : nat) (th : thr) (k : nat),
+  creachable fval deps progs s -> isd (ents s k) = true -> nth_error (thrs s) t = Some th ->
+  (tpc th = GLoad k ->
+     cstep fval deps s t = Some (mkC (set_nth t (goto th (GLoad1 k)) (thrs s)) (ents s) (plain s))) /\
+  (tpc th = GLoad1 k ->
+     cstep fval deps s t = Some (mkC (set_nth t (goto th (GRead k)) (thrs s)) (ents s) (plain s))) /\
+  (tpc th = GRead k ->
+     cstep fval deps s t = Some (mkC (set_nth t (ret th (CGet k) (fval k)) (thrs s)) (ents s) ((t, k, false) :: plain s))).
+Proof. exact get_after_done. Qed.
+Print Assumptions C10_get_after_done.
+
+Theorem C10_done_stable : forall (fval : nat -> option nat) (deps : nat -> list nat) (progs : list (list call))
+    (s : cstate) (t : nat) (s' : cstate) (k : nat),
+  creachable fval deps progs s -> cstep fval deps s t = Some s' -> isd (ents s k) = true -> isd (ents s' k) = true.
+Proof. exact done_stable. Qed.
+Print Assumptions C10_done_stable.
+
+Theorem C10_race_free : forall (fval : nat -> option nat) (deps : nat -> list nat) (progs : list (list call)) (s : cstate),
+  creachable fval deps progs s ->
   (forall (a b : nat) (tha thb : thr) (k : nat), a <> b ->
      nth_error (thrs s) a = Some tha -> nth_error (thrs s) b = Some thb ->
      plain_write k (tpc tha) = true -> plain_write k (tpc thb) = false /\ plain_read k (tpc thb) = false) /\
@@ -58,23 +93,36 @@ Theorem C10_race_free : forall (fval : nat -> nat) (progs : list (list call)) (s
 Proof. exact race_free. Qed.
 Print Assumptions C10_race_free.
 
-Theorem C10_no_deadlock : forall (fval : nat -> nat) (progs : list (list call)) (s : cstate),
-  creachable fval progs s -> all_idle s = true \/ (exists (t : nat) (s' : cstate), cstep fval s t = Some s').
+Theorem C10_no_deadlock : forall (fval : nat -> option nat) (deps : nat -> list nat) (progs : list (list call))
+    (L : nat -> nat), (forall k d : nat, In d (deps k) -> L d < L k) ->
+  forall s : cstate, creachable fval deps progs s ->
+  all_idle s = true \/ (exists (t : nat) (s' : cstate), cstep fval deps s t = Some s').
 Proof. exact cache_no_deadlock. Qed.
 Print Assumptions C10_no_deadlock.
 
-Theorem C10_step_decreases : forall (fval : nat -> nat) (s : cstate) (t : nat) (s' : cstate),
-  cstep fval s t = Some s' -> psi s' < psi s.
+Theorem C10_self_dependency_deadlocks_refuted :
+  exists (deps : nat -> list nat) (progs : list (list call)) (s : cstate),
+    creachable ex_fval deps progs s /\ all_idle s = false /\ forall t, cstep ex_fval deps s t = None.
+Proof. exact self_dependency_deadlocks_refuted. Qed.
+Print Assumptions C10_self_dependency_deadlocks_refuted.
+
+Theorem C10_step_decreases : forall (fval : nat -> option nat) (deps : nat -> list nat) (kc : nat -> nat),
+  (forall k : nat, 13 + nested deps kc k 0 <= kc k) ->
+  forall (s : cstate) (t : nat) (s' : cstate), cstep fval deps s t = Some s' -> psi deps kc s' < psi deps kc s.
 Proof. exact psi_decreases. Qed.
 Print Assumptions C10_step_decreases.
 
-Theorem C10_schedules_finite : forall (fval : nat -> nat) (sch : list nat) (s s' : cstate),
-  crun fval sch s = Some s' -> length sch + psi s' <= psi s.
-Proof. exact cache_terminates. Qed.
+Theorem C10_schedules_finite : forall (fval : nat -> option nat) (deps : nat -> list nat) (L : nat -> nat),
+  (forall k d : nat, In d (deps k) -> L d < L k) ->
+  forall (sch : list nat) (s s' : cstate), crun fval deps sch s = Some s' ->
+  length sch + psi deps (kcL deps L) s' <= psi deps (kcL deps L) s.
+Proof. exact cache_terminates_acyclic. Qed.
 Print Assumptions C10_schedules_finite.
 
-Theorem C10_do_terminates : forall (fval : nat -> nat) (progs : list (list call)) (s : cstate),
-  creachable fval progs s ->
-  exists (sch : list nat) (s' : cstate), crun fval sch s = Some s' /\ all_idle s' = true /\ length sch <= psi s.
+Theorem C10_do_terminates : forall (fval : nat -> option nat) (deps : nat -> list nat) (progs : list (list call))
+    (L : nat -> nat), (forall k d : nat, In d (deps k) -> L d < L k) ->
+  forall s : cstate, creachable fval deps progs s ->
+  exists (sch : list nat) (s' : cstate),
+    crun fval deps sch s = Some s' /\ all_idle s' = true /\ length sch <= psi deps (kcL deps L) s.
 Proof. exact cache_can_finish. Qed.
 Print Assumptions C10_do_terminates.
